@@ -888,6 +888,7 @@ def replay(chk, rp):
     if "history" not in rp or ("killed_build_index" not in rp and "whole_history_process" not in rp):
         return run(chk)
     drv, model = setup(chk)
+    chk.proof_gate()
     if "killed_build_index" in rp:
         t = Target(chk, drv, model, rp["history"], rp["killed_build_index"], "replay")
     else:
